@@ -13,7 +13,9 @@ LEVEL = "exploration"
 GEO = [[], ["--PhaseSpaceSize", 10], ["--PhaseSpaceShiftX", 1], ["--PhaseSpaceShiftY", 3, "--PhaseSpaceShiftX", -2], ["-I", 1e-3, 0, 2e-3],
        # options that concern something else (how tracked particles are moved, the RF model, the interpolation order, the output): the limit is the same
        ["--FPTrack", 0], ["--FPTrack", 1], ["--FPTrack", 2], ["--LinearRF", "false"], ["--InterpolationPoints", 3], ["--SavePhaseSpace", 2],
-       ["--RenormalizeCharge", 7], ["--InterpolateClamped", "true"], ["--CutoffFreq", 0]]
+       ["--RenormalizeCharge", 7], ["--InterpolateClamped", "true"], ["--CutoffFreq", 0],
+       # the synchrotron frequency given (it overrides the momentum compaction factor) at another value, alone, with the sinusoidal RF, and next to an alpha0 that is then not in force
+       ["-f", 30000.0], ["-f", 30000.0, "--LinearRF", "false"], ["--alpha0", 2e-3, "--LinearRF", "false"], ["--alpha0", 8e-3]]
 
 
 def process_level(res, tier):
@@ -44,7 +46,8 @@ def process_level(res, tier):
         n, stencil, zoom, fptype, geo = c
         T = 8 * td if fptype == 3 else (8.0 if fptype <= 0 else 0.4 * td)
         n += (1 if geo == 2 else 0)
-        a = GEO[geo] + ["-s", n, "-N", steps, "-T", T, "-n", 8, "-G", 0, "-f", fs, "-d", (td / fs if fptype >= 0 else 0), "--derivation", stencil, "--FPType", (fptype if fptype >= 0 else 3),
+        fsc = GEO[geo][GEO[geo].index("-f") + 1] if "-f" in GEO[geo] else fs
+        a = GEO[geo] + ["-s", n, "-N", steps, "-T", T, "-n", 8, "-G", 0] + ([] if "-f" in GEO[geo] else ["-f", fs]) + ["-d", (td / fsc if fptype >= 0 else 0), "--derivation", stencil, "--FPType", (fptype if fptype >= 0 else 3),
              "--InitialDistZoom", zoom, "--padding", 2]
         r = pl.run(exe, a, wd, out="o_%d_%d_%g_%d_%d.h5" % c)
         doc = pl.h5(r["h5"], maxv=20000) if r["rc"] == 0 else None
